@@ -51,6 +51,17 @@ static void popf(int reg) {
   depth--;
 }
 
+// A jump target can be reached from a deeper expression context:
+// break, continue or goto may leave a statement expression that is an
+// operand of an expression whose other operands are already on the
+// stack. The stack pointer is therefore re-derived at jump targets
+// from the bottom of the temporary area.
+static void restore_sp(void) {
+  println("  mov %d(%%rbp), %%rsp", current_fn->alloca_bottom->offset);
+  if (depth)
+    println("  sub $%d, %%rsp", depth * 8);
+}
+
 // Round up `n` to the nearest multiple of `align`. For instance,
 // align_to(5, 8) returns 8 and align_to(11, 8) returns 16.
 int align_to(int n, int align) {
@@ -1346,12 +1357,14 @@ static void gen_stmt(Node *node) {
     }
     gen_stmt(node->then);
     println("%s:", node->cont_label);
+    restore_sp();
     if (node->inc) {
       gen_expr(node->inc);
       discard(node->inc->ty);
     }
     println("  jmp .L.begin.%d", c);
     println("%s:", node->brk_label);
+    restore_sp();
     return;
   }
   case ND_DO: {
@@ -1359,10 +1372,12 @@ static void gen_stmt(Node *node) {
     println(".L.begin.%d:", c);
     gen_stmt(node->then);
     println("%s:", node->cont_label);
+    restore_sp();
     gen_expr(node->cond);
     cmp_zero(node->cond->ty);
     println("  jne .L.begin.%d", c);
     println("%s:", node->brk_label);
+    restore_sp();
     return;
   }
   case ND_SWITCH:
@@ -1402,6 +1417,7 @@ static void gen_stmt(Node *node) {
     println("  jmp %s", node->brk_label);
     gen_stmt(node->then);
     println("%s:", node->brk_label);
+    restore_sp();
     return;
   case ND_CASE:
     println("%s:", node->label);
@@ -1420,6 +1436,7 @@ static void gen_stmt(Node *node) {
     return;
   case ND_LABEL:
     println("%s:", node->unique_label);
+    restore_sp();
     gen_stmt(node->lhs);
     return;
   case ND_RETURN:
